@@ -1272,7 +1272,7 @@ def observe(ctx, fit, case, tmpdir, step, multi=False):
     if not same_state(hb, h):
         ctx.note("observe.held-state-moved-during-report")
         ctx.discard("held state moved during report() (C08 territory): report not compared")
-    elif not check_report_text(ctx, text[i0:], h, want_asym, det_r):
+    elif not check_report_text(ctx, text[i0:], dict(h, names=[(case.get("rename") or {}).get(n, n) for n in h["names"]], fixed={(case.get("rename") or {}).get(n, n) for n in h["fixed"]}) if (multi and case.get("rename")) else h, want_asym, det_r):
         return False
     # ---- result dictionary
     ctx.op("get_result_dict")
@@ -1513,6 +1513,11 @@ def gen_multi_case(rng, idx, slot):
     }
     if fix:
         case["fix"] = str(pnames[int(rng.integers(0, len(pnames)))])
+    if rng.random() < 0.3 or slot % 4 == 1:
+        # display names assigned through the MultiFit: the parameter shared by the members (it has one formatter per member)
+        shared = [p for p in pnames if sum(p in m[2] for m in members) > 1]
+        if shared:
+            case["rename"] = {shared[0]: shared[0] + "_s", pnames[0]: pnames[0] + "_0"} if shared[0] != pnames[0] else {shared[0]: shared[0] + "_s"}
     return case
 
 
@@ -1554,6 +1559,8 @@ def build_multi(case):
             m = HistFit(HistContainer(d["bins"], d["range"], fill_data=d["raw"]), f, minimizer=case["minimizer"])
         fits.append(m)
     fit = MultiFit(fits, minimizer=case["minimizer"])
+    if case.get("rename"):
+        fit.assign_parameter_names(**case["rename"])
     start = {p: t * 1.1 * (s if p in scaled else 1.0) for p, t in true.items()}
     fit.set_parameter_values(**start)
     if case["fix"] and case["history"] != "fix-later":
@@ -1566,6 +1573,9 @@ def run_multi(ctx, case):
     pnames = list(true)
     ctx.op("multi-report-case")
     ctx.stratum("fit", "multi")
+    if case.get("rename"):
+        ctx.op("MultiFit.assign_parameter_names")
+        ctx.stratum("multi", "shared-parameter-renamed")
     ctx.stratum("multi", "members", "+".join(m[0] for m in members))
     ctx.stratum("multi", "linear" if linear else "nonlinear")
     ctx.stratum("report", case["minimizer"])
